@@ -40,6 +40,10 @@ def run(ctx):
     jobs.append(dict(module="MC_C01kdf", name="MC_C01kdf_refine", view="View", workers=2, timeout=900,
                      constants=dict(Seed=ctx.seed, ZLens=S([0, 1, 59, 60, 63, 64]), KLens=S([33]), OutFile=core.tla_str(os.path.join(ctx.scratch, "c01krefine.ndjson"))),
                      invariants=("PrefixOK", "StreamIsKdf")))
+    # implementation-shaped model of digest{h,x,nx,len} with a symbolic chaining value: refines HashObj for every chunk length
+    jobs.append(dict(module="Sm3Digest", name="Sm3Digest", workers=4, timeout=900, invariants=("Refines", "Bookkeeping", "SumOk"),
+                     constants=dict(Lens=core.tla_set(list(range(0, 131)) + [191, 192, 193, 255, 256, 257]) if ctx.tier == "thorough" else core.tla_set([0, 1, 7, 55, 56, 57, 63, 64, 65, 119, 120, 127, 128, 129, 200]),
+                                    MaxLen=600, MaxOps=(3 if ctx.tier == "thorough" else 4))))
     # implementation-shaped lane-template model (integers only): holds under the fixed sizing rule ...
     jobs.append(dict(module="KdfLanes", name="KdfLanes_new", constants=dict(Rule='"new"'), invariants=("TemplateExact", "CounterInside"), workers=1, timeout=300))
     ctx.tlc_many(jobs, parallel=5)
